@@ -91,6 +91,10 @@ func wire(inst *instance, c crud) {
 			}
 		})
 	}
+	inst.Hold = inst.Write
+	if c.MarkerOnly {
+		inst.Hold = func(g *mt.Gen) { lib.Catch(func() { inst.Marker(0, g) }) }
+	}
 	inst.Marker = func(i int, g *mt.Gen) string {
 		m := c.NewItem()
 		fillItem(g, m)
